@@ -9,6 +9,7 @@ from typing import Any
 
 from ..boot import VERIF
 from ..runner import Divergence, Driver, Env, Outcome, Violation, diff_streams
+from . import dbos_gated as DG
 from . import idle_check as IC
 from . import lifecycle_db as LDB
 
@@ -158,3 +159,71 @@ def run_dbos_standin(out: Outcome, create_row: bool) -> dict:
     out.traces_validated += 1
     out.count(f"dbos-standin(create_row={create_row})")
     return o
+
+
+SECOND_RELOAD_SIG = "/dbos_second_reload_fails"
+
+
+def run_dbos_gated(env: Env, out: Outcome, prop: str, n_cases: int) -> None:
+    """DBOS half under latency (harness/server/dbos_gated.py): corpus, replay, generated cases; K against the protocol machine
+    of M7 (B) and the monitors of `prop`.  A reload that dies replaying the log after an earlier reload is classified apart
+    (`<prop>/dbos_second_reload_fails`): reproduced by its witness on every run, reported as a violation only through the
+    known-findings list (it is a fact about the unchanged tree), counted where a generated case runs into it."""
+    from ..runner import load_known
+
+    listed = {k["signature"] for k in load_known() if k["property"] == prop}
+    rng = random.Random(env.rng.randrange(1 << 30))
+
+    def take(results: list[dict], tag: str) -> None:
+        for r in results:
+            o = r["run"]
+            out.evaluations += len(o["ops"])
+            out.disagreements_checked += len(o["ops"])
+            out.traces_validated += 1
+            out.count(f"dbos-gated:{tag}")
+            for op in o["ops"]:
+                out.count("bop:" + op.split("|")[0])
+            kinds = {e["ev"] for e in o["events"]}
+            windows = [e for e in o["events"] if e["ev"] == "consume"
+                       and any(b["ev"] == "begin" and b["ok"] and b["t"] <= e["t"] for b in o["events"])
+                       and not any(c["ev"] == "consume_ir" and c["t"] < e["t"] and c["inc"] == e["inc"] for c in o["events"])]
+            if windows:
+                out.count("dbos-gated: tick consumed by the run while its release was in flight")
+            if any(e["ev"] == "delivered" and not e["live"] for e in o["events"]):
+                out.count("dbos-gated: tick delivered to a workflow that had exited (C26's check-then-send window)")
+            if "reload" in kinds and "ir_sent" in kinds:
+                out.nontrivial(json.dumps(r["case"], sort_keys=True))
+            out.sample({"dbos_gated": r["case"], "ops": o["ops"][:30], "quiet": o["facts"].get("quiet")}, cap=2)
+            if r["divergence"] is not None and not out.divergences:
+                out.divergences.append(r["divergence"])
+            if o["errors"]:
+                out.notes.append(f"dbos-gated {tag}: {o['errors']} in {json.dumps(r['case'])}")
+            seen = set()
+            for sig, what in r["findings"]:
+                if sig in seen:
+                    continue
+                seen.add(sig)
+                if sig.endswith(SECOND_RELOAD_SIG):
+                    out.count("dbos-gated: second reload died (known trigger)")
+                    if tag != "witness" or sig not in listed:
+                        continue
+                out.violations.append(Violation(sig, what, {"kind": "dbos_gated", "case": r["case"]}))
+
+    if env.replay is not None:
+        payload = env.replay.get("payload", {})
+        c = payload.get("case") or {}
+        if c.get("kind") == "dbos_gated":
+            take(DG.check_cases([c["case"]], prop), "replay")
+        for d in payload.get("divergence") or []:
+            ctx = d.get("context") or {}
+            if isinstance(ctx, dict) and ctx.get("kind") == "dbos_gated":
+                take(DG.check_cases([ctx["case"]], prop), "replay")
+    take(DG.check_cases([c for _n, c in DG.CORPUS], prop), "corpus")
+    w = DG.check_cases([DG.WITNESS_SECOND_RELOAD], prop)
+    take(w, "witness")
+    if not any(sig.endswith(SECOND_RELOAD_SIG) for sig, _ in w[0]["findings"]):
+        out.notes.append("dbos-gated: the second-reload witness did not reproduce (the reloading tick is now persisted?)")
+    cases = [DG.gen_case(rng) for _ in range(n_cases)]
+    B = 50
+    for i in range(0, len(cases), B):
+        take(DG.check_cases(cases[i:i + B], prop), "generated")
